@@ -22,7 +22,7 @@ BOUNDS_C19 = {
              'first build with root failure, abort after 1 start and midway, re-evaluation of the built project with the first/last Output result '
              'symbolically deleted and the first Always / first re-executed job reporting a symbolic new value (covers up-to-date re-run and single '
              'invalidation at either end), re-evaluation with root failure and with abort; sequential driver',
-    'thorough': 'quick + chain 4000 / 1500, layers 40x100 / 100x12, fan 4000',
+    'thorough': 'quick + chain 4000 (pattern OOO) and 1500 (six patterns), layers 40x100 (OOO), 30x50 and 100x12, fan 4000 (OOO) and 1500, Output + 1500 chained Ephemerals + Output, 200 layers of 2 Ephemerals',
 }
 
 BOUNDS_HEVAL = {
